@@ -501,7 +501,7 @@ func hideDefaultIgnorables(buffer *Buffer, font *Font) {
 
 	var (
 		invisible = buffer.Invisible
-		ok        bool
+		ok        = true // a glyph chosen by the user is always used
 	)
 	if invisible == 0 {
 		invisible, ok = font.face.NominalGlyph(' ')
